@@ -71,8 +71,8 @@ func init() {
 	mutant("new-stream-error-in-loop", "no-stream-error-inside-decode-loop", "serverConn.go", "		// From here on it is a regular header field.\n		strm.regularSeen = true\n", "		// From here on it is a regular header field.\n		strm.regularSeen = true\n\n		if len(v) > 8192 {\n			return NewResetStreamError(EnhanceYourCalm, \"header value too long\")\n		}\n")
 	mutant("handler-report-only-on-success", "handler-panic-reports-back", "serverConn.go", "				ctx.Response.SetStatusCode(fasthttp.StatusInternalServerError)\n			}\n", "				ctx.Response.SetStatusCode(fasthttp.StatusInternalServerError)\n				return\n			}\n")
 	mutant("release-while-handler-runs", "abandoned-bookkeeping", "serverConn.go", "		if strm.handlerRunning {\n			strm.abandoned = true", "		if strm.handlerRunning && sc.debug {\n			strm.abandoned = true")
-	mutant("no-limit-before-newstream", "stream-creation-guards", "serverConn.go", "if (openStreams >= int(sc.st.maxStreams) || wasClosing) && fr.Type() == FrameHeaders", "if (wasClosing) && fr.Type() == FrameHeaders")
-	mutant("create-while-closing", "stream-creation-guards", "serverConn.go", "if (openStreams >= int(sc.st.maxStreams) || wasClosing) && fr.Type() == FrameHeaders", "if (openStreams >= int(sc.st.maxStreams)) && fr.Type() == FrameHeaders")
+	mutant("no-limit-before-newstream", "stream-creation-guards", "serverConn.go", "if (openStreams >= int(sc.st.maxStreams) || wasClosing) && newRequest", "if (wasClosing) && newRequest")
+	mutant("create-while-closing", "stream-creation-guards", "serverConn.go", "if (openStreams >= int(sc.st.maxStreams) || wasClosing) && newRequest", "if (openStreams >= int(sc.st.maxStreams)) && newRequest")
 	mutant("goaway-no-closing-state", "goaway-bookkeeping", "serverConn.go", "	atomic.StoreInt32((*int32)(&sc.state), int32(connStateClosed))\n\n	last := atomic.LoadUint32(&sc.lastID)", "	if strm != 0 {\n		atomic.StoreInt32((*int32)(&sc.state), int32(connStateClosed))\n	}\n\n	last := atomic.LoadUint32(&sc.lastID)")
 	mutant("body-unbounded", "buffer-append-bounded", "serverConn.go", "		if sc.maxRequestBodySize > 0 && strm.recvBody > sc.maxRequestBodySize {\n			return NewResetStreamError(EnhanceYourCalm, \"request body is too large\")\n		}\n\n		strm.ctx.Request.AppendBody(data)", "		strm.ctx.Request.AppendBody(data)")
 	mutant("ring-never-evicts", "closed-ring-bounded", "serverConn.go", "			delete(closedStrms, closedRing[closedOldest])\n", "")
@@ -211,7 +211,7 @@ func init() {
 	mutant("conn-window-limit-loose", "credit-overflow-check", "serverConn.go", "					if sc.clientWindow > 1<<31-1 {", "					if sc.clientWindow > 1<<31+1 {")
 	mutant("stream-wu-limit-nonstrict", "credit-overflow-check", "serverConn.go", "		if atomic.AddInt64(&strm.window, win) > 1<<31-1 {", "		if atomic.AddInt64(&strm.window, win) >= 1<<31-1 {")
 	mutant("rst-on-latest-is-idle", "unknown-stream-classification", "serverConn.go", "!closed && fr.Stream() > sc.lastID {", "!closed && fr.Stream() >= sc.lastID {")
-	mutant("lower-than-latest-nonstrict", "unknown-stream-classification", "serverConn.go", "				if fr.Stream() < sc.lastID {\n					if fr.Type() == FrameWindowUpdate {", "				if fr.Stream() <= sc.lastID {\n					if fr.Type() == FrameWindowUpdate {")
+	mutant("lower-than-latest-nonstrict", "unknown-stream-classification", "serverConn.go", "\t\t\t\tif fr.Stream() <= highID {\n\t\t\t\t\tif fr.Type() == FrameWindowUpdate {", "\t\t\t\tif fr.Stream() < highID {\n\t\t\t\t\tif fr.Type() == FrameWindowUpdate {")
 	mutant("resume-not-closed", "completion-closes-stream", "serverConn.go", "				if sc.sendData(strm) {\n					strm.SetState(StreamStateClosed)\n				}", "				if sc.sendData(strm) {\n					strm.responded = true\n				}")
 	mutant("flush-done-not-closed", "completion-closes-stream", "serverConn.go", "	for _, s := range done {\n		s.SetState(StreamStateClosed)\n		closeStream(s)\n	}", "	for _, s := range done {\n		s.SetState(StreamStateClosed)\n	}")
 	mutant("resume-while-handler-runs", "completion-closes-stream", "serverConn.go", "			} else if strm.responded && !strm.handlerRunning && strm.hasMoreToSend() {", "			} else if strm.responded || !strm.handlerRunning && strm.hasMoreToSend() {")
@@ -620,9 +620,9 @@ func init() {
 	mutant("late-frames-after-our-reset-kill-the-connection", "late-frames-on-reset-streams", "serverConn.go", "						if resetSent {\n							if err := sc.discardFrame(fr); err != nil {", "						if resetSent && sc.debug {\n							if err := sc.discardFrame(fr); err != nil {")
 	mutant("late-frames-after-our-reset-dropped-unseen", "late-frames-on-reset-streams", "serverConn.go", "						if resetSent {\n							if err := sc.discardFrame(fr); err != nil {\n								sc.writeError(nil, err)\n								break loop\n							}\n\n							continue\n						}", "						if resetSent {\n							continue\n						}")
 	mutant("frames-on-a-stream-the-peer-closed-accepted", "late-frames-on-reset-streams", "serverConn.go", "						sc.writeGoAway(fr.Stream(), StreamClosedError, \"frame on closed stream\")\n\n						if canCloseAfterGoAway() {\n							break loop\n						}\n", "")
-	mutant("refused-stream-forgotten", "late-frames-on-reset-streams", "serverConn.go", "					// already on its way when the peer learns of the refusal.\n					markClosed(fr.Stream(), true)\n", "					// already on its way when the peer learns of the refusal.\n")
-	mutant("refused-stream-remembered-as-closed-by-the-peer", "late-frames-on-reset-streams", "serverConn.go", "					// already on its way when the peer learns of the refusal.\n					markClosed(fr.Stream(), true)", "					// already on its way when the peer learns of the refusal.\n					markClosed(fr.Stream(), false)")
-	mutant("refused-header-block-not-decoded", "late-frames-on-reset-streams", "serverConn.go", "					if err := sc.discardFrame(fr); err != nil {\n						sc.writeError(nil, err)\n						break loop\n					}\n\n					continue\n				}\n\n				if fr.Stream() < sc.lastID {", "					if fr.Type() == FrameData {\n						sc.consumeConnRecvWindow(fr.Len())\n					}\n\n					continue\n				}\n\n				if fr.Stream() < sc.lastID {")
+	mutant("refused-stream-forgotten", "late-frames-on-reset-streams", "serverConn.go", "					// turns up later is out of order.\n					markClosed(fr.Stream(), true)\n", "					// turns up later is out of order.\n")
+	mutant("refused-stream-remembered-as-closed-by-the-peer", "late-frames-on-reset-streams", "serverConn.go", "					// turns up later is out of order.\n					markClosed(fr.Stream(), true)", "					// turns up later is out of order.\n					markClosed(fr.Stream(), false)")
+	mutant("refused-header-block-not-decoded", "late-frames-on-reset-streams", "serverConn.go", "					if err := sc.discardFrame(fr); err != nil {\n						sc.writeError(nil, err)\n						break loop\n					}\n\n					continue\n				}\n\n				if fr.Stream() <= highID {", "					if fr.Type() == FrameData {\n						sc.consumeConnRecvWindow(fr.Len())\n					}\n\n					continue\n				}\n\n				if fr.Stream() <= highID {")
 	mutant("reset-not-recorded", "late-frames-on-reset-streams", "serverConn.go", "	strm.resetSent = true\n\n	sc.writeReset(strm.ID(), code)", "	sc.writeReset(strm.ID(), code)")
 	mutant("timeout-reset-bypasses-the-record", "late-frames-on-reset-streams", "serverConn.go", "				sc.resetStream(strm, StreamCanceled)\n\n				// set the state to closed", "				sc.writeReset(strm.ID(), StreamCanceled)\n\n				// set the state to closed")
 	mutant("memory-forgets-who-reset", "late-frames-on-reset-streams", "serverConn.go", "		closedStrms[id] = resetSent\n	}", "		closedStrms[id] = false\n	}")
@@ -1051,7 +1051,12 @@ func init() {
 }
 
 func init() {
-	mutant("limit-refuses-any-frame-on-an-unknown-stream", "refusal-is-for-requests-in-order", "serverConn.go", "				if (openStreams >= int(sc.st.maxStreams) || wasClosing) && fr.Type() == FrameHeaders && fr.Stream() > sc.lastID {", "				if (openStreams >= int(sc.st.maxStreams) || wasClosing) && fr.Stream() > sc.lastID {")
+	mutant("limit-refuses-any-frame-on-an-unknown-stream", "refusal-is-for-requests-in-order", "serverConn.go", "newRequest := fr.Type() == FrameHeaders && fr.Stream() > highID", "newRequest := fr.Stream() > highID")
+	mutant("request-order-judged-by-the-goaway-promise", "refusal-is-for-requests-in-order", "serverConn.go", "newRequest := fr.Type() == FrameHeaders && fr.Stream() > highID", "newRequest := fr.Type() == FrameHeaders && fr.Stream() > sc.lastID")
+	mutant("request-order-decided-after-the-id-is-published", "refusal-is-for-requests-in-order", "serverConn.go", "(openStreams >= int(sc.st.maxStreams) || wasClosing) && newRequest {", "(openStreams >= int(sc.st.maxStreams) || wasClosing) && fr.Type() == FrameHeaders && fr.Stream() > sc.lastID {")
+	mutant("refused-id-leaves-no-trace", "refusal-is-for-requests-in-order", "serverConn.go", "\t\t\t\t\tmarkClosed(fr.Stream(), true)\n\n\t\t\t\t\thighID = fr.Stream()\n", "\t\t\t\t\tmarkClosed(fr.Stream(), true)\n")
+	mutant("refused-id-raises-the-goaway-promise", "refusal-is-for-requests-in-order", "serverConn.go", "\t\t\t\t\tmarkClosed(fr.Stream(), true)\n\n\t\t\t\t\thighID = fr.Stream()\n", "\t\t\t\t\tmarkClosed(fr.Stream(), true)\n\n\t\t\t\t\thighID = fr.Stream()\n\t\t\t\t\tatomic.StoreUint32(&sc.lastID, fr.Stream())\n")
+	mutant("accepted-id-leaves-the-order-mark-behind", "server-loop-shape", "serverConn.go", "\t\t\t\t\tatomic.StoreUint32(&sc.lastID, fr.Stream())\n\n\t\t\t\t\thighID = fr.Stream()\n\t\t\t\t}", "\t\t\t\t\tatomic.StoreUint32(&sc.lastID, fr.Stream())\n\t\t\t\t}")
 }
 
 func init() {
